@@ -1,5 +1,6 @@
 import H2.Server.Model
 import H2.Server.Abs.Msg
+import H2.Server.Abs.Limits
 /-!
 # Lockstep helpers shared by the per-stream adapters (C08 `StreamSM`, C20 `Msg`)
 
@@ -74,22 +75,33 @@ def msgSt (st : Strm) : Msg.St :=
     userAgent := st.userAgent, fields := st.fields }
 
 inductive WalkEnd where
-  | ok                       -- every field accepted; a cut field may be left for the CONTINUATION
+  | ok (cut : Nat)           -- every field accepted; `cut` octets of a field that is not complete are left for the CONTINUATION
   | verdict (v : Msg.Verdict)
   | undecodable
+  /-- the `cut` octets left are more than the server carries over (`Abs.Limits.fieldTooLong`, the C13 model) -/
+  | heldTooLong (cut : Nat)
 deriving Repr, DecidableEq, Inhabited
+
+def WalkEnd.isOk : WalkEnd → Bool
+  | .ok _ => true
+  | _ => false
 
 /-- decode `b` field by field from decoder state `dec`; validate each field with `Msg.field`. Returns how
 it ended, the C20 state, and the fields that were decoded (the rejected one included). -/
 def walk (cfg : Msg.Cfg) : Nat → Hpack.DecState → Msg.St → Bool → Bool → Nat → Bytes → List MsgSpec.Field →
     WalkEnd × Msg.St × List MsgSpec.Field
   | 0, _, st, _, _, _, _, acc => (.undecodable, st, acc)
-  | _, _, st, _, _, _, [], acc => (.ok, st, acc)
+  | _, _, st, _, _, _, [], acc => (.ok 0, st, acc)
   | fuel + 1, dec, st, blockStart, endHeaders, fp, b, acc =>
     match Hpack.Dec.next dec blockStart fp b with
-    | .needMore => if !endHeaders then (.ok, st, acc) else (.undecodable, st, acc)
+    | .needMore =>
+      if !endHeaders then
+        -- what is carried over: the unfinished representation, without the size updates in front of it
+        let cut := (Hpack.Dec.skipUpdates dec blockStart fp b).2.length
+        if Abs.Limits.fieldTooLong cfg.maxHeaderList cut then (.heldTooLong cut, st, acc) else (.ok cut, st, acc)
+      else (.undecodable, st, acc)
     | .err => (.undecodable, st, acc)
-    | .ok _ none _ => (.ok, st, acc)     -- only table size updates were left: no field
+    | .ok _ none _ => (.ok 0, st, acc)     -- only table size updates were left: no field
     | .ok dec' (some f) rest =>
       let kv : MsgSpec.Field := (f.name, f.value)
       match Msg.field cfg st kv with
@@ -106,7 +118,7 @@ def headerPart (fr : Frame) : Option (Bool × Bool × Bytes) :=
 /-- `walk` on the fragment of `fr` for the stream `st?` (`none`: the stream would be created now) -/
 def walkFrame (s : Srv) (st? : Option Strm) (fr : Frame) : WalkEnd × Msg.St × List MsgSpec.Field :=
   match headerPart fr with
-  | none => (.ok, (st?.map msgSt).getD {}, [])
+  | none => (.ok 0, (st?.map msgSt).getD {}, [])
   | some (isCont, eh, frag) =>
     let prev := (st?.map (·.prevHdr)).getD []
     let b := prev ++ frag
